@@ -23,6 +23,7 @@ from .CDictCompositionMCNP import CDictCompositionMCNP
 from .ConvertIsotope import convert_isotope
 from .EIsotopeNameElementT4 import EIsotopeNameElement
 from .Abundances import Abundances
+from ..Utils import normalize_float
 
 
 def compositionConversionMCNPToT4(mcnp_parser):
@@ -49,7 +50,8 @@ def compositionConversionMCNPToT4(mcnp_parser):
             else:
                 mass_number_t4 = mass_number
             isotope_t4 = atomic_number_t4, mass_number_t4
-            l_composition_t4.append((isotope_t4, str_fabs(fraction)))
+            l_composition_t4.append((isotope_t4,
+                                     str_fabs(normalize_float(fraction))))
         d_composition_t4[key] = Abundances(l_composition_t4, atom_fracs)
     return d_composition_t4
 
